@@ -728,9 +728,21 @@ def run(ctx):
             and isinstance(rets[0].value.args[0], ast.Name) and rets[0].value.args[0].id == m.args.args[1].arg
         other = {"GEODETIC_TO_AUTHALIC", "AUTHALIC_TO_GEODETIC"} - {table}
         swapped = len(rets) == 1 and isinstance(rets[0].value, ast.Call) and len(rets[0].value.args) == 2 and core.src(rets[0].value.args[1]) in other
-        st = core.DISCHARGED if ok else (core.VIOLATED if swapped else core.UNDECIDED)
-        ctx.ob("C15.3", f"AuthalicProjection.{method} applies {table} to its argument", st, core.loc(AUTH, m),
-               core.src(rets[0]) if rets else "no return")
+        body = [b for b in m.body if not (isinstance(b, ast.Expr) and isinstance(b.value, ast.Constant))]
+        extra = [b for b in body if not isinstance(b, ast.Return)]
+        if ok and extra:
+            wit = premap_witness(extra, m.args.args[1].arg)
+            if wit is not None:
+                x, gx = wit
+                ctx.bad("C15.3", f"AuthalicProjection.{method} changes its argument before the series is applied", core.loc(AUTH, extra[0]),
+                        f"`{core.src(extra[0])[:80]}` maps phi = {x!r} to {gx!r} (off by {abs(gx - x):.3g} rad, evaluated with the same library functions); "
+                        f"the series has slope ~1, so the result is off by about as much: beyond the 1e-10 accuracy clause and the 1e-12 round-trip clause")
+                return
+        st = core.DISCHARGED if ok and not extra else (core.VIOLATED if swapped else core.UNDECIDED)
+        ctx.ob("C15.3", f"AuthalicProjection.{method} applies {table} to its argument" + (" and does nothing else" if ok else ""), st, core.loc(AUTH, m),
+               (core.src(rets[0]) if rets else "no return") +
+               (f"; but the method also executes `{core.src(extra[0])[:70]}`: what reaches the series, or what is returned, may differ from the argument / the series value"
+                if ok and extra else ""))
     passes("forward", "GEODETIC_TO_AUTHALIC")
     passes("inverse", "AUTHALIC_TO_GEODETIC")
     wiring(ctx)
@@ -839,6 +851,45 @@ def fold_const(e: ast.expr, names: Optional[Dict[str, float]] = None) -> Optiona
     return None
 
 
+def premap_witness(stmts: List[ast.stmt], var: str):
+    """The statements are all  var = <expression of var built from math functions and literals>.  Evaluates the composition
+    with the checker's own math library on latitudes approaching 0 and +-pi/2 and returns (x, g(x)) where |g(x) - x| > 2e-10."""
+    allowed = {"sin", "cos", "tan", "asin", "acos", "atan", "atan2", "sqrt", "fabs", "copysign", "fmod", "hypot", "degrees", "radians", "floor", "ceil"}
+    exprs = []
+    for st in stmts:
+        if not (isinstance(st, ast.Assign) and len(st.targets) == 1 and isinstance(st.targets[0], ast.Name) and st.targets[0].id == var):
+            return None
+        e = st.value
+        while isinstance(e, ast.Call) and core.src(e.func) == "cast" and len(e.args) == 2:
+            e = e.args[1]
+        for n in ast.walk(e):
+            if isinstance(n, ast.Call):
+                f = core.src(n.func)
+                if not ((f.startswith("math.") and f[5:] in allowed) or f in ("abs", "min", "max", "float")):
+                    return None
+            elif isinstance(n, ast.Name) and n.id not in (var, "math", "abs", "min", "max", "float"):
+                return None
+            elif isinstance(n, ast.Attribute) and core.src(n) not in ("math.pi", "math.e", "math.tau") and not (isinstance(n.value, ast.Name) and n.value.id == "math"):
+                return None
+            elif isinstance(n, (ast.Lambda, ast.Subscript, ast.Starred, ast.Await, ast.Yield, ast.NamedExpr, ast.ListComp, ast.GeneratorExp, ast.DictComp, ast.SetComp)):
+                return None
+        exprs.append(compile(ast.Expression(e), "<premap>", "eval"))
+    half = math.pi / 2
+    grid = [0.0, 1e-300, 1e-12, 1e-6, 0.1, 0.5, 1.0, 1.5] + [half - 10.0 ** (-k) for k in range(1, 16)] + [half]
+    grid = grid + [-x for x in grid]
+    env = {"math": math, "abs": abs, "min": min, "max": max, "float": float, "__builtins__": {}}
+    for x in grid:
+        v = x
+        try:
+            for code in exprs:
+                v = eval(code, env, {var: v})       # only math.* on a float: the expression was vetted above
+        except Exception:
+            return None
+        if isinstance(v, float) and abs(v - x) > 2e-10:
+            return x, v
+    return None
+
+
 def methods_of(tree: ast.Module) -> Dict[str, ast.FunctionDef]:
     for n in tree.body:
         if isinstance(n, ast.ClassDef) and n.name == "AuthalicProjection":
@@ -876,7 +927,18 @@ def wiring(ctx):
         a = strip_cast(fwd_calls[0].args[0])
         src_a = strip_cast(defs_f.get(a.id)) if isinstance(a, ast.Name) else a
         ok_f = isinstance(src_a, ast.Call) and core.src(src_a.func) == "deg_to_rad" and "latitude" in core.src(src_a)
-    st = core.DISCHARGED if ok_f and not wrong_f else (core.VIOLATED if wrong_f or not fwd_calls else core.UNDECIDED)
+    # no other conversion path: no branch or loop in the function, and no other method of the converter is used
+    def other_paths(fn, allowed):
+        probs = [f"`{core.src(n)[:50]}`" for n in ast.walk(fn) if isinstance(n, (ast.If, ast.IfExp, ast.While, ast.For, ast.Try, ast.Match))]
+        probs += [f"`{core.src(n)[:50]}`" for n in ast.walk(fn) if isinstance(n, ast.Call) and isinstance(n.func, ast.Attribute)
+                  and core.src(n.func.value) == name and n.func.attr != allowed]
+        probs += [f"`{core.src(n)[:50]}`" for n in ast.walk(fn) if isinstance(n, (ast.Assign, ast.AugAssign)) and
+                  any(isinstance(t, ast.Attribute) and core.src(t.value) == name for t in (n.targets if isinstance(n, ast.Assign) else [n.target]))]
+        return probs
+    extra_f, extra_t = other_paths(fl, "forward"), other_paths(tl, "inverse")
+    st = core.DISCHARGED if ok_f and not wrong_f and not extra_f else (core.VIOLATED if wrong_f or not fwd_calls else core.UNDECIDED)
+    if extra_f and ok_f and not wrong_f:
+        ctx.unk("C15.3", "from_lonlat has a single conversion path", core.loc(CT, fl), f"{extra_f[:2]}: a second path or another use of the converter is not analysed")
     ctx.ob("C15.3", "from_lonlat converts the geodetic latitude with authalic.forward(deg_to_rad(latitude))", st, core.loc(CT, fl),
            f"calls: {[core.src(c) for c in fwd_calls + wrong_f]}" + ("" if fwd_calls else " -- the authalic step is missing: latitudes are treated as spherical (0.19 deg off at 45 deg)"))
     ok_t = False
@@ -889,7 +951,7 @@ def wiring(ctx):
         src_arg = strip_cast(defs_t.get(arg.id)) if isinstance(arg, ast.Name) else arg
         half_pi = src_arg is not None and core.src(src_arg).replace(" ", "") in ("math.pi/2-phi",)
         ok_t = bool(r2d) and half_pi
-    st = core.DISCHARGED if ok_t and not wrong_i else (core.VIOLATED if wrong_i or not inv_calls else core.UNDECIDED)
+    st = core.DISCHARGED if ok_t and not wrong_i and not extra_t else (core.VIOLATED if wrong_i or not inv_calls else core.UNDECIDED)
     ctx.ob("C15.3", "to_lonlat converts the authalic latitude with rad_to_deg(authalic.inverse(pi/2 - phi))", st, core.loc(CT, tl),
            f"calls: {[core.src(c) for c in inv_calls + wrong_i]}")
     # degree/radian factors
